@@ -19,7 +19,7 @@ CLAIMED = {
          "Theorems C02_exact_dist / C02_exact_rate / C02_zero_jerk: for all integers and every T>=1 the exact models of move_dist_t3 and rate_t3 equal the tick-by-tick third-order "
          "recurrence incl. the three-tick clear rule; zero jerk coincides with move_dist_lt. Theorem C02_rounding: with every mpmath operation of move_dist_t3 rounded by ANY operator that fixes 103-bit numbers and has "
          "relative error <= 2^-102, the error reaching round() is at most 1/4 on the domain (|rate| <= 2^33, |accel|, |jerk| <= 2^32, T <= 2^32, |jerk| T <= 2^33), the exact total is an integer and the snap test takes the same branch, so the rounded computation equals the exact one. Correspondence with ebb_calc.py over the firmware-valid domain under varying mpmath precision.",
-         NOTE_COMMON + "move_dist_t3 and rate_t3 are re-translated from the source on every run (tools/py2v.py) and proved equal to the model. That mpmath's operations are such roundings at 103 bits, and the float arithmetic inside rate_t3 (exact below 2^53), are assumptions, sampled here under six ambient precisions.",
+         NOTE_COMMON + "move_dist_t3 and rate_t3 are re-translated from the source on every run (tools/py2v.py) and proved equal to the model. C02_rate_float_exact: rate_t3 in binary64 arithmetic equals the exact one for any rounding that fixes binary64 numbers. That mpmath's and CPython's operations are such roundings is assumed, sampled here under six ambient precisions.",
          "DESIGN.md section 5, C02"),
  "C03": ("Coq proof: exact model of calculate_lm proved to return the tick-by-tick 'first tick reaching the budget' answer for all integers in the domain; O(1) checker equivalent to the spec; implementation compared with the model and decided by the checker",
          "Theorem C03_model_correct: for all integers, the exact-arithmetic model of calculate_lm (branch structure, reversal tick, quadratic solve with both ceilings via the integer square root, "
